@@ -28,7 +28,8 @@ EXTENDS Integers, Sequences, FiniteSets, TLC
 CONSTANTS FIDS, G, MAXPHYS, MAXTAIL, MAXNEST, MAXMACRO, KIDS, TRO,
           BUDGET,     \* 0 = unlimited
           ENTRIES,    \* number of top-level evaluations in a history
-          FIXTERM     \* TRUE: model the proposed repair (clear Terminal at Iter)
+          FIXTERM,    \* TRUE: model the repair "clear Terminal when a frame is reused" (C02)
+          CTXFIX      \* TRUE: model the repair "restore the bridged evaluation context" (C05)
 
 VARIABLES frames, go, ret, steps, depth, conds, ctx, nentry, dropped
 vars == <<frames, go, ret, steps, depth, conds, ctx, nentry, dropped>>
@@ -161,7 +162,8 @@ BodyTail == /\ Idle /\ Act.t \in {"fun", "op"} /\ Act.kids >= 0 /\ Len(go) < G
             /\ frames' = SetTop(frames, [Top(frames) EXCEPT !.term = TRUE])
             /\ go' = Append(SetTop(go, [Act EXCEPT !.kids = -1]), [t |-> "eval", md |-> 0])
             \* builtin returned a terminal expression: termEnv.evalCtx = ctx, never restored
-            /\ ctx' = IF Act.t = "op" /\ Act.root THEN "leaked" ELSE ctx
+            \* (repaired: the terminal environment's previous context is put back after the tail evaluation)
+            /\ ctx' = IF Act.t = "op" /\ Act.root THEN (IF CTXFIX THEN "set" ELSE "leaked") ELSE ctx
             /\ UNCHANGED <<ret, steps, depth, conds, nentry, dropped>>
 
 \* leaving an op activation normally restores the bridged context (not deferred)
@@ -176,7 +178,8 @@ BodyReturn(r) == /\ Idle /\ Act.t \in {"op", "ie", "hb"} /\ Act.kids >= 0
 \* non-deferred context restore in call() is skipped
 BodyPanic == /\ Idle /\ Act.t = "op" /\ Act.kids >= 0
              /\ ret' = Err("internal-panic", TRUE) /\ go' = Pop(go) /\ frames' = Pop(frames)
-             /\ UNCHANGED <<steps, depth, conds, ctx, nentry, dropped>>
+             /\ ctx' = IF CTXFIX THEN RestoreCtx(Act, ctx) ELSE ctx       \* repaired: the restore is deferred
+             /\ UNCHANGED <<steps, depth, conds, nentry, dropped>>
 \* macro body returns its expansion: eval re-evaluates it in place (goto eval)
 MacroReturn == /\ Idle /\ Act.t = "mac" /\ Act.kids >= 0
                /\ frames' = Pop(frames)
@@ -277,6 +280,8 @@ K9 == \A i \in 1..Len(frames) : frames[i].iters <= MAXTAIL
 AtRest == Act.t = "entry" /\ depth = 0
 K10 == AtRest => (frames = <<>> /\ conds = 0 /\ Len(go) = 1)
 K10ctx == AtRest => ctx = "clean"
+\* K12 CondDiscipline: a condition is pending for rethrow exactly while a matched handler is being called
+K12 == conds = Cardinality({i \in 1..Len(go) : go[i].t = "hb" /\ go[i].phase = "hcall"})
 FramesMatchGo == Len(frames) = Cardinality({i \in 1..Len(go) : go[i].t \in ({"fun"} \cup OPS)})
 \* K4 BudgetStops: once the budget is exhausted every further charged step fails with the
 \* step-limit error (no evaluation step succeeds any more); the counter never decreases
